@@ -218,18 +218,6 @@ func (x *Exec) verify() (err error) {
 			}
 		}
 	}
-	// Go's type safety: pointers to objects of unrelated types never alias
-	for i, p := range fn.Params {
-		for j := i + 1; j < len(fn.Params); j++ {
-			q := fn.Params[j]
-			pt, ok1 := p.Type().Underlying().(*types.Pointer)
-			qt, ok2 := q.Type().Underlying().(*types.Pointer)
-			if ok1 && ok2 && !mayOverlap(pt.Elem(), qt.Elem()) {
-				a, b := fr.regs[p].L[0], fr.regs[q].L[0]
-				st.assume(tOr(tIsNil(a), tIsNil(b), tNot(tEq(tRid(a), tRid(b)))))
-			}
-		}
-	}
 	for _, fv := range fn.FreeVars {
 		v := st.freshVal("fv_"+sanitize(fv.Name()), fv.Type())
 		fr.free = append(fr.free, v)
@@ -763,7 +751,14 @@ func (x *Exec) step(st *State, b *ssa.BasicBlock, idx int, in ssa.Instruction) b
 	case *ssa.Alloc:
 		obj := st.newObject()
 		elem := in.Type().Underlying().(*types.Pointer).Elem()
+		x.d.DeclareFun("roottype", []string{"Int"}, "Int")
+		if id, ok := x.prog.typeIDs[typeKey(elem)]; ok && id <= len(x.prog.pkgTypes) {
+			st.assume(fmt.Sprintf("(= (roottype %s) %d)", tRid(obj), id))
+		} else {
+			st.assume(fmt.Sprintf("(> (roottype %s) %d)", tRid(obj), len(x.prog.pkgTypes)))
+		}
 		st.storeVal(obj, zeroVal(elem))
+		x.zeroGhosts(st, obj, elem, 0)
 		x.setReg(st, in, Val{T: in.Type(), L: []Term{obj}})
 	case *ssa.FieldAddr:
 		p := x.value(st, in.X)
@@ -833,7 +828,7 @@ func (x *Exec) step(st *State, b *ssa.BasicBlock, idx int, in ssa.Instruction) b
 		x.setReg(st, in, Val{T: in.Type(), L: []Term{obj}})
 	case *ssa.MakeChan:
 		obj := st.newObject()
-		st.storeLeaf("Bool", extendGhost(obj, 0), "false") // closed flag
+		st.storeLeaf("Bool", extendGhost(obj, 0), "false") // closed flag (ghost index 0 is reserved for it)
 		x.setReg(st, in, Val{T: in.Type(), L: []Term{obj}})
 	case *ssa.MakeClosure:
 		obj := st.newObject()
@@ -1424,4 +1419,31 @@ func substIdents(e ast.Expr, sub map[string]ast.Expr) ast.Expr {
 		return e
 	}
 	return e
+}
+
+
+// zeroGhosts initialises the ghost fields declared for t (and for the struct
+// types nested in it by value) at a freshly allocated address.
+func (x *Exec) zeroGhosts(st *State, addr Term, t types.Type, depth int) {
+	if n, ok := t.(*types.Named); ok {
+		owner := n.Obj().Name()
+		if n.Obj().Pkg() != nil && n.Obj().Pkg() != x.prog.pkg.Types {
+			owner = n.Obj().Pkg().Name() + "." + owner
+		}
+		for _, g := range x.prog.spec.Ghosts[owner] {
+			gt := x.parseType(g.Type)
+			st.storeVal(extendGhost(addr, g.Index), zeroVal(gt))
+		}
+	}
+	if depth > 4 {
+		return
+	}
+	if stt, ok := t.Underlying().(*types.Struct); ok {
+		for i := 0; i < stt.NumFields(); i++ {
+			ft := stt.Field(i).Type()
+			if _, isStruct := ft.Underlying().(*types.Struct); isStruct {
+				x.zeroGhosts(st, extend(addr, []int{i}), ft, depth+1)
+			}
+		}
+	}
 }
